@@ -263,9 +263,13 @@ def decode_number(data_raw: int, bit_offset: int, bit_length: int, signed: bool,
     # adjust resolution
     number_int *= resolution
 
-    if number_int < min_value:
+    # the scaled value is a float for fractional resolutions: compare with a tolerance of
+    # half a resolution step (or the float rounding error for very wide fields) so that
+    # the range ends themselves are accepted
+    tolerance = max(abs(resolution) / 2, abs(number_int) * 1e-15) if isinstance(resolution, float) else 0
+    if number_int < min_value - tolerance:
         raise ValueError("Value below minimum allowed")
-    if number_int > max_value:
+    if number_int > max_value + tolerance:
         raise ValueError("Value above maximum allowed")
 
     return number_int
